@@ -106,6 +106,8 @@ func runC01(p *core.Program, r *core.Report) {
 	c01Helpers(p, r)
 	c01Counter(p, r)
 	c01Chokepoint(p, r, "C01.chokepoint")
+	r.Rule("C01.fresh", "a byte string handed out by a reading method is not a slice of scratch storage kept in the stream object (the next read would rewrite a value the caller still holds)", 3)
+	c01Fresh(p, r)
 }
 
 func bigEndianSpec(spec packSpec, width int, bufName string) bits.Vec {
@@ -930,4 +932,95 @@ func uniq(s []string) []string {
 	}
 	sort.Strings(out)
 	return out
+}
+
+// c01Fresh: a byte string read from the stream is the caller's to keep. A reading method of
+// DataInputX that returns []byte returns storage it made for this call (make, append onto nil, a
+// literal) or what another reading method returned — never a slice of an array that lives in the
+// stream object: such an array is the stream's scratch space, every later read writes into it, and a
+// value handed out earlier no longer reads back as what was written.
+func c01Fresh(p *core.Program, r *core.Report) {
+	t := namedIn(p, "io", "DataInputX")
+	if t == nil {
+		return
+	}
+	for _, fi := range p.MethodsOf(t) {
+		if fi.Decl.Body == nil {
+			continue
+		}
+		sig := fi.Obj.Type().(*types.Signature)
+		if sig.Results().Len() == 0 || !isByteSlice(sig.Results().At(0).Type()) {
+			continue
+		}
+		info := fi.Pkg.TypesInfo
+		rn := recvName(fi)
+		var scratch func(e ast.Expr, depth int) string
+		scratch = func(e ast.Expr, depth int) string {
+			e = ast.Unparen(e)
+			if depth > 6 {
+				return ""
+			}
+			switch v := e.(type) {
+			case *ast.SliceExpr:
+				// a slice of an array field of the receiver
+				if sel, ok := ast.Unparen(v.X).(*ast.SelectorExpr); ok {
+					if id, ok := ast.Unparen(sel.X).(*ast.Ident); ok && id.Name == rn {
+						if _, isArr := info.TypeOf(sel).Underlying().(*types.Array); isArr {
+							return types.ExprString(v)
+						}
+					}
+				}
+				return scratch(v.X, depth+1)
+			case *ast.Ident:
+				o, _ := info.ObjectOf(v).(*types.Var)
+				if o == nil || o.IsField() {
+					return ""
+				}
+				why := ""
+				ast.Inspect(fi.Decl.Body, func(n ast.Node) bool {
+					if as, ok := n.(*ast.AssignStmt); ok && len(as.Lhs) == len(as.Rhs) {
+						for i, l := range as.Lhs {
+							if id, ok := l.(*ast.Ident); ok && info.ObjectOf(id) == types.Object(o) && as.Rhs[i] != e {
+								if w := scratch(as.Rhs[i], depth+1); w != "" {
+									why = w
+								}
+							}
+						}
+					}
+					return true
+				})
+				return why
+			}
+			return ""
+		}
+		bad := ""
+		var named []ast.Expr
+		if fi.Decl.Type.Results != nil {
+			for _, f := range fi.Decl.Type.Results.List {
+				for _, n := range f.Names {
+					named = append(named, n)
+				}
+			}
+		}
+		ast.Inspect(fi.Decl.Body, func(n ast.Node) bool {
+			if _, isLit := n.(*ast.FuncLit); isLit {
+				return false
+			}
+			rs, ok := n.(*ast.ReturnStmt)
+			if !ok {
+				return true
+			}
+			res := rs.Results
+			if len(res) == 0 {
+				res = named
+			}
+			if len(res) > 0 {
+				if w := scratch(res[0], 0); w != "" {
+					bad = "returns " + w + " (return at " + p.Pos(rs.Pos()) + "): a slice of an array kept in the stream object, which the next read overwrites while the caller still holds the value"
+				}
+			}
+			return true
+		})
+		r.Check(bad == "", "C01.fresh", core.FuncName(fi.Obj), p.Pos(fi.Decl.Pos()), "the bytes returned are not a slice of storage kept in the stream", bad)
+	}
 }
